@@ -80,12 +80,16 @@ def eval_variant(v: dict, props=None) -> dict:
         (tmp / "src").mkdir()
         shutil.copytree(src, tmp / "src" / "pyrtcm", ignore=shutil.ignore_patterns("__pycache__"))
         why = _apply(tmp, v["edits"])
+        if not why and v.get("base_patch"):
+            v = dict(v, patchfile=str(VERIF_ROOT / "benign" / v["base_patch"] / "patch.diff"))
         if not why and v.get("patchfile"):
             import subprocess
 
             pr = subprocess.run(["patch", "-p1", "-s", "--no-backup-if-mismatch", "-i", v["patchfile"]], cwd=tmp, capture_output=True, text=True)
             if pr.returncode != 0:
                 why = "patch does not apply to the current tree: " + (pr.stdout + pr.stderr).strip()[:120]
+        if not why and v.get("post_edits"):
+            why = _apply(tmp, v["post_edits"])
         if why:
             return {"id": v["id"], "status": "skipped", "detail": why}
         try:
